@@ -680,7 +680,14 @@ pub fn c12_strategy(transports: BoxedStrategy<Transport>) -> BoxedStrategy<ConvC
                 let upgrades = conn.as_deref().map(|c| c.to_ascii_lowercase().contains("upgrade")).unwrap_or(false);
                 let blen = if (mask >> 27) % 4 == 0 && !upgrades { [5usize, 1024, 1025, 3000][(mask as usize >> 29) % 4] } else { 0 };
                 let (method, framing) = if blen > 0 { ("POST", Framing::Length { n: blen }) } else { ("GET", Framing::None) };
-                reads.push(if blen > 0 && (mask >> 26) & 1 == 1 { ReadPlan::ToEof { buf: 700, extra: 0 } } else { ReadPlan::None });
+                // an Upgrade header without the `upgrade` connection option makes no upgrade request: the
+                // body (here: none) ends where the framing says, also for a handler that reads it to its end
+                let mut headers = headers;
+                let offers_upgrade = !upgrades && (mask >> 22) % 9 == 4;
+                if offers_upgrade {
+                    headers.push(Hdr::new("Upgrade", ["h2c", "websocket"][(mask as usize >> 20) % 2]));
+                }
+                reads.push(if (blen > 0 && (mask >> 26) & 1 == 1) || offers_upgrade { ReadPlan::ToEof { buf: 700, extra: 0 } } else { ReadPlan::None });
                 conv.reqs.push(build_req(i as u32, method.into(), String::new(), version, headers, framing, None, mask as usize, mask, conn, false));
             }
             // now and then a request of a protocol version the server does not speak sits in the
